@@ -10,7 +10,7 @@ import ast
 from ..program import Program, dotted, norm
 from ..flow import guards_of, facts, stores
 from ..report import AnalysisError
-from ..algebra import C, L, Rat
+from ..algebra import C, L, Rat, SymEval
 
 FILE = 'cherab/tools/plasmas/ionisation_balance.py'
 MOD = 'cherab.tools.plasmas.ionisation_balance'
@@ -339,67 +339,142 @@ def _r3(run, mi):
         else:
             run.fail('C09-R3', K + '_fractional_abundance_point|normalisation', FILE, fn.lineno,
                      'the returned fractions are not the solver output divided by %s' % ne)
-    # _from_element_density_point: abundance = fractional * element_density
+    # the two density scalings, decided on the value each function returns (abstract evaluation, any code shape)
     fn = mi.functions['_from_element_density_point']
     run.subject('C09-R3')
-    rets = [n for n in ast.walk(fn) if isinstance(n, ast.Return) and n.value is not None]
-    e = rets[-1].value if rets else None
-    if isinstance(e, ast.Name):
-        d = _last_def(fn, e.id)
-        e = d[0] if d else e
-    ok = False
-    if isinstance(e, ast.BinOp) and isinstance(e.op, ast.Mult):
-        names = {norm(e.left), norm(e.right)}
-        if 'element_density' in names:
-            other = (names - {'element_density'}).pop() if len(names) == 2 else None
-            d = _last_def(fn, other) if other else None
-            if d and isinstance(d[0], ast.Call) and dotted(d[0].func) == '_fractional_abundance_point':
-                ok = True
-    if ok:
-        run.ok('C09-R3', '_from_element_density_point scaling', norm(e))
+    got = _scaling_value(fn)
+    ps = params_of(fn)
+    want = L('FA') * L(ps[2]) if len(ps) > 2 else None
+    if got is None:
+        run.undecided('C09-R3', '_from_element_density_point scaling', 'returned value could not be evaluated')
+    elif any(l.startswith('?') for l in got.leaves()):
+        run.undecided('C09-R3', '_from_element_density_point scaling', 'returned value contains unrecognised terms: %s' % got.key()[:80])
+    elif got.eq(want):
+        run.ok('C09-R3', '_from_element_density_point scaling', got.key())
     else:
         run.fail('C09-R3', K + '_from_element_density_point|scaling', FILE, fn.lineno,
-                 'charge-state densities are not element_density * fractional abundance: %s' % norm(e))
-    # _match_element_density_point: densities = fractional * (element_n_e / z_mean), z_mean = sum index*value
+                 'charge-state densities are %s, expected fractional abundance * %s' % (got.key(), ps[2]))
     fn = mi.functions['_match_element_density_point']
     run.subject('C09-R3')
-    ok_parts = []
-    for lp in [n for n in ast.walk(fn) if isinstance(n, ast.For)]:
-        if isinstance(lp.iter, ast.Call) and dotted(lp.iter.func) == 'enumerate' and isinstance(lp.target, ast.Tuple):
-            i, v = [x.id for x in lp.target.elts]
-            for st in lp.body:
-                if isinstance(st, ast.AugAssign) and isinstance(st.target, ast.Name) and norm(st.value) in ('%s * %s' % (i, v), '%s * %s' % (v, i)):
-                    ok_parts.append((st.target.id, type(st.op).__name__, norm(lp.iter.args[0])))
-    zmean = [p for p in ok_parts if p[1] == 'Add' and p[2] == 'fractional_abundance']
-    charge = [p for p in ok_parts if p[1] == 'Sub']
-    rets = [n for n in ast.walk(fn) if isinstance(n, ast.Return) and n.value is not None]
-    e = rets[-1].value if rets else None
-    if isinstance(e, ast.Name):
-        d = _last_def(fn, e.id)
-        e = d[0] if d else e
-    good = False
-    if zmean and charge and isinstance(e, ast.BinOp) and isinstance(e.op, ast.Mult):
-        names = [norm(e.left), norm(e.right)]
-        if 'fractional_abundance' in names:
-            other = [x for x in names if x != 'fractional_abundance']
-            d = _last_def(fn, other[0]) if other else None
-            if d and norm(d[0]) == '%s / %s' % (charge[0][0], zmean[0][0]):
-                good = True
-    if good:
-        run.ok('C09-R3', '_match_element_density_point scaling', 'fractional * (%s / %s)' % (charge[0][0], zmean[0][0]))
-    else:
-        run.fail('C09-R3', K + '_match_element_density_point|scaling', FILE, fn.lineno,
-                 'densities are not fractional abundance * (remaining electron density / mean charge)')
-    clamp = [n for n in ast.walk(fn) if isinstance(n, ast.If) and charge and norm(n.test) in ('%s < 0' % charge[0][0], '%s <= 0' % charge[0][0])]
-    run.subject('C09-R3')
-    if clamp and any(norm(s) == '%s = 0' % charge[0][0] for s in clamp[0].body):
-        run.ok('C09-R3', 'non-negative remaining charge', norm(clamp[0].test))
-    else:
+    got = _scaling_value(fn)
+    ps = params_of(fn)
+    nsp, ne = ps[2], ps[3]
+    want = L('FA') * (L('CLAMP0(%s)' % (L(ne) - L('Q(%s[*])' % nsp)).key()) / L('Q(FA)'))
+    unclamped = L('FA') * ((L(ne) - L('Q(%s[*])' % nsp)) / L('Q(FA)'))
+    if got is None:
+        run.undecided('C09-R3', '_match_element_density_point scaling', 'returned value could not be evaluated')
+    elif any(l.startswith('?') for l in got.leaves()):
+        run.undecided('C09-R3', '_match_element_density_point scaling', 'returned value contains unrecognised terms: %s' % got.key()[:80])
+    elif got.eq(want):
+        run.ok('C09-R3', '_match_element_density_point scaling', got.key())
+        run.subject('C09-R3')
+        run.ok('C09-R3', 'non-negative remaining charge', 'clamped at zero before the division')
+    elif got.eq(unclamped):
         run.fail('C09-R3', K + '_match_element_density_point|clamp', FILE, fn.lineno,
                  'remaining electron density is not clamped at zero: negative densities possible')
+    else:
+        run.fail('C09-R3', K + '_match_element_density_point|scaling', FILE, fn.lineno,
+                 'densities are %s; expected fractional abundance * (remaining electron density / mean charge) = %s' % (got.key()[:160], want.key()))
 
 
-# ---------------------------------------------------------------------------------------------
+class _ScaleEval(SymEval):
+    """Q(S) := sum over charge states of charge * S[charge]; FA := the fractional abundance of the element."""
+
+    def call(self, n):
+        d = dotted(n.func)
+        if d == '_fractional_abundance_point':
+            return L('FA')
+        if d == 'sum' and len(n.args) == 1 and isinstance(n.args[0], (ast.GeneratorExp, ast.ListComp)) and len(n.args[0].generators) == 1:
+            g = n.args[0].generators[0]
+            q = _enum_product(g.target, g.iter, n.args[0].elt)
+            if q is not None and not g.ifs:
+                return L('Q(%s)' % self.ev(q).key())
+        if d in ('np.dot', 'np.sum') or d == 'sum':
+            return L('?%s' % norm(n))
+        return super().call(n)
+
+
+def _enum_product(target, it, elt):
+    """for (i, v) in enumerate(S): elt == i * v  ->  S"""
+    if isinstance(it, ast.Call) and dotted(it.func) == 'enumerate' and len(it.args) == 1 and isinstance(target, ast.Tuple) and len(target.elts) == 2 \
+            and all(isinstance(x, ast.Name) for x in target.elts):
+        i, v = [x.id for x in target.elts]
+        if norm(elt) in ('%s * %s' % (i, v), '%s * %s' % (v, i)):
+            return it.args[0]
+    return None
+
+
+def _scaling_value(fn):
+    ev = _ScaleEval()
+    for p in params_of(fn):
+        ev.env[p] = L(p)
+    out = []
+
+    def assign(name, val):
+        ev.env[name] = val
+
+    def block(stmts):
+        for st in stmts:
+            if isinstance(st, ast.Expr):
+                continue
+            if isinstance(st, ast.Return):
+                out.append(ev.ev(st.value) if st.value is not None else None)
+                return True
+            if isinstance(st, ast.Assign) and len(st.targets) == 1 and isinstance(st.targets[0], ast.Name):
+                assign(st.targets[0].id, ev.ev(st.value))
+            elif isinstance(st, ast.AugAssign) and isinstance(st.target, ast.Name):
+                cur = ev.env.get(st.target.id, L('?' + st.target.id))
+                v = ev.ev(st.value)
+                assign(st.target.id, {ast.Add: cur + v, ast.Sub: cur - v, ast.Mult: cur * v}.get(type(st.op), L('?' + norm(st))) if not isinstance(st.op, ast.Div) else cur / v)
+            elif isinstance(st, ast.For):
+                _loop(st, [])
+            elif isinstance(st, ast.If):
+                t = st.test
+                # clamp: if X < 0: X = 0
+                if isinstance(t, ast.Compare) and len(t.ops) == 1 and isinstance(t.left, ast.Name) and isinstance(t.ops[0], (ast.Lt, ast.LtE)) \
+                        and norm(t.comparators[0]) in ('0', '0.0') and len(st.body) == 1 and not st.orelse \
+                        and norm(st.body[0]) in ('%s = 0' % t.left.id, '%s = 0.0' % t.left.id):
+                    assign(t.left.id, L('CLAMP0(%s)' % ev.env.get(t.left.id, L('?' + t.left.id)).key()))
+                    continue
+                # data loading / defaults: names assigned inside become opaque unless they are the rate tables
+                for x in ast.walk(st):
+                    if isinstance(x, ast.Name) and isinstance(x.ctx, ast.Store) and not x.id.startswith('coef_'):
+                        assign(x.id, L('?%s' % x.id))
+            else:
+                for x in ast.walk(st):
+                    if isinstance(x, ast.Name) and isinstance(x.ctx, ast.Store):
+                        assign(x.id, L('?%s' % x.id))
+        return False
+
+    def _loop(lp, outer):
+        """accumulations  acc +=/-= i * v  over (nested) enumerate loops"""
+        for st in lp.body:
+            if isinstance(st, ast.For):
+                _loop(st, outer + [lp])
+            elif isinstance(st, ast.AugAssign) and isinstance(st.target, ast.Name) and isinstance(st.op, (ast.Add, ast.Sub)):
+                src = _enum_product(lp.target, lp.iter, st.value)
+                term = None
+                if src is not None:
+                    txt = norm(src)
+                    for o in reversed(outer):
+                        if isinstance(o.target, ast.Name) and txt == o.target.id:
+                            txt = '%s[*]' % ev.ev(o.iter).key()
+                    if not outer:
+                        txt = ev.ev(src).key()
+                    term = L('Q(%s)' % txt)
+                cur = ev.env.get(st.target.id, L('?' + st.target.id))
+                if term is None:
+                    assign(st.target.id, L('?%s' % st.target.id))
+                else:
+                    assign(st.target.id, cur + term if isinstance(st.op, ast.Add) else cur - term)
+            elif not isinstance(st, (ast.Expr, ast.Pass)):
+                for x in ast.walk(st):
+                    if isinstance(x, ast.Name) and isinstance(x.ctx, ast.Store):
+                        assign(x.id, L('?%s' % x.id))
+    block(fn.body)
+    return out[0] if out else None
+
+
 def _r5(run, mi):
     """Species dictionaries {charge: density} are packed into arrays by their charge key."""
     run.describe('C09-R5', 'dictionary inputs {charge: profile} are stored at the row given by their key (the row index is the charge used downstream)')
@@ -562,6 +637,13 @@ def _unroll(fn, Z, with_tcx):
                     continue
                 if isinstance(st.value, ast.Call) and dotted(st.value.func) in ('np.zeros', 'numpy.zeros'):
                     continue
+                if isinstance(st.targets[0], ast.Name) and len(st.targets) == 1:
+                    # an intermediate local (a flag, a common factor): bind it if it can be interpreted
+                    try:
+                        env[st.targets[0].id] = ev(st.value)
+                        continue
+                    except AnalysisError:
+                        pass
                 raise _Stop()       # scaling / concatenation: the square block is assembled
             elif isinstance(st, ast.If):
                 if ev(st.test):
